@@ -297,6 +297,20 @@ func extremeDraws(seeds []int64, draws int) (out []struct {
 	return []e{{bestHi.hseed, bestHi.n, "largest"}, {bestLo.hseed, bestLo.n, "smallest"}}
 }
 
+// (virtual clock offset at New, position of the draw among the list's new nodes, value of the draw < 2^63 * 2e-10)
+var knownTiny = []struct {
+	hseed int64
+	n     int
+	v     int64
+}{
+	{1847472837051, 33259, 283510992},
+	{730614517427, 60270, 1573041040},
+	{2343319866885, 119195, 240692383},
+	{983920043522, 125116, 764197706},
+	{2227671626693, 148834, 1124960197},
+	{2596248392197, 56505, 1205606907},
+}
+
 func bigCases(t *testing.T) {
 	n := 0
 	run := func(c caseT) {
@@ -324,6 +338,23 @@ func bigCases(t *testing.T) {
 			c := caseT{Site: "big", Order: "int", HSeed: x.hseed, Big: &bigT{Family: "fill", N: x.n + 50, W: x.n, RSeed: uint64(x.n)}}
 			synctest_run(t, c)
 			rec.Count("steered_extreme_draw_histories", 1)
+		}
+		// draws below e^-22 (the last entry of the level table): one new node in 3.6 * 10^9 gets one, so they were looked
+		// for once, offline, in the same documented stream (clock seed, position of the draw, its value); each entry is
+		// validated against the generator before use and skipped if the stream ever changes
+		for _, k := range knownTiny[:common.Pick(3, len(knownTiny))] {
+			src := rand.NewSource(epoch.Add(time.Duration(k.hseed)).UnixNano())
+			var v int64
+			for i := 1; i <= k.n; i++ {
+				v = src.Int63()
+			}
+			if v != k.v {
+				rec.Count("steered_known_draws_not_reproduced", 1)
+				continue
+			}
+			c := caseT{Site: "big", Order: "int", HSeed: k.hseed, Big: &bigT{Family: "fill", N: k.n + 50, W: k.n, RSeed: uint64(k.n)}}
+			synctest_run(t, c)
+			rec.Count("steered_tiny_draw_histories", 1)
 		}
 	}
 	ths := []int{1097, 2981, 8103, 22026, 1024, 4096, 8192, 16384, 59874, 65536}
